@@ -36,6 +36,20 @@ def enc_long(n):
     return varint(zz(n))
 
 
+def zz_dec_at(b, i):
+    """decode one zig-zag varint of b starting at i -> (value, next index); IndexError at end of input"""
+    n = 0
+    shift = 0
+    while True:
+        c = b[i]
+        i += 1
+        n |= (c & 0x7F) << shift
+        shift += 7
+        if not c & 0x80:
+            break
+    return (n >> 1) ^ -(n & 1), i
+
+
 class Reblock:
     """encodes a *normal-form* value under a raw schema, choosing a random partition of every
     array/map into blocks, each in the positive-count or the negative-count-plus-size form"""
